@@ -99,10 +99,9 @@ def main():
         explanation='Proved for all inputs (any UnicodeDB satisfying Sound, discharged for the interpreter\'s tables by unicode_sound): escape_clean, '
                     'escape_clean_classes, escape_token, escape_int, format_grammar, colour_strip, line_clean, line_count, unknown_tag_refused, '
                     'printed_tag_registered, safe_format_clean, message_repr_clean. Proved over regenerated tables: priority_pin, priority_monotone, '
-                    'priority_table_monotone, registry_letter, tag_sites_registered, is_safe_pin, sites_checked, safestr_sites_tool_text_partial, '
-                    f'safestr_sites_file_derived_is_recorded over {nsites} safestr/safe_format sites. The full inventory statement is FALSE on the '
-                    'pinned tree (safestr_sites_tool_text_refuted: tags.safestr(key) in lib/check/msgformat/python.py wraps a python-format mapping '
-                    'key); the taint stream reproduces it as raw ESC on stdout (known finding). OUTSTANDING: none of the planned theorems; not proved: '
+                    'priority_table_monotone, registry_letter, tag_sites_registered, is_safe_pin, sites_checked, safestr_sites_tool_text '
+                    f'over {nsites} safestr/safe_format sites (on the pinned tree one site, tags.safestr(key) in lib/check/msgformat/python.py, wrapped a '
+                    'python-format mapping key: found by the inventory theorem and the taint stream, repaired by fix: d06c053). OUTSTANDING: none of the planned theorems; not proved: '
                     'a decoder round-trip for repr (the token grammar is proved instead), the classifier itself (trusted), terminal.py.')
 
 if __name__ == '__main__':
